@@ -447,13 +447,24 @@ def rule_render(ctx):
     for n in own_nodes(f):
         if isinstance(n, ast.If):
             pass
+    # the variable finally stored into attr['expr']
+    evar = None
+    for n in own_nodes(f):
+        if isinstance(n, ast.Assign) and any(
+                isinstance(t, ast.Subscript) and isinstance(
+                    t.slice, ast.Constant) and t.slice.value == 'expr'
+                for t in n.targets) and isinstance(n.value, ast.Name):
+            evar = n.value.id
+    if evar is None:
+        raise AnalysisError('Operator.set_expr: rendered variable not found')
+
     def branch_templates(stmts, cond, out):
         for st in stmts:
             if isinstance(st, ast.If):
                 branch_templates(st.body, norm_src(st.test), out)
                 branch_templates(st.orelse, 'else', out)
             elif isinstance(st, ast.Assign) and isinstance(
-                    st.targets[0], ast.Name) and st.targets[0].id == 'expr':
+                    st.targets[0], ast.Name) and st.targets[0].id == evar:
                 out.append((cond, st.value, st))
     tl = []
     branch_templates(f.node.body, '', tl)
@@ -483,7 +494,7 @@ def rule_render(ctx):
                         'postfix %% is rendered as `%s`' % text, file=OP,
                         function='Operator.set_expr', line=st.lineno)
         else:
-            ok = text.startswith("'(%s)' %") and '.join(expr)' in text
+            ok = text.startswith("'(%s)' %") and ('.join(%s)' % evar) in text
             if ok:
                 rr.ok('binary operator (%s) rendered as one parenthesised '
                       'group joined by the operator' % cond, OP)
